@@ -195,7 +195,8 @@ CHECKS = {
           "observed table). Refusal of unrelated xsi:type is proved, and the pre-repair code and MessagePack ByteArray are "
           "refuted on witnesses. Observed only: HttpRpc, SOAP envelopes and headers, validator=lxml, rich leaf types. Three "
           "defects repaired here, the null-object one by the C05 repair; findings: MessagePack ByteArray given a str "
-          "receives a tuple of str (other kinds are refused), SOAP headers are not schema-validated under validator=lxml.",
+          "receives a tuple of str (other kinds are refused), SOAP headers are not schema-validated under validator=lxml. "
+          "Requests are also driven in sequences on one long-lived application; history-independence is observed, not proved.",
   'technique': 'Coq proof (typing judgement, induction on fuel) over Gallina models of the XML and dict deserialisers + fail-closed ast translators (xsitype, dictleaf) + vm_compute correspondence + isinstance/value-space oracle with an exhaustive xsi:type retag battery',
  },
  'C16': {
@@ -284,6 +285,26 @@ CHECKS = {
           "MessagePackRpc and HttpRpc are decided by the direct oracle only; response serialisation, time and memory are not "
           "modelled.",
   'technique': 'Coq proof (structural induction on document trees, fuel-indexed induction on declared types, case analysis over generated exception tables) + fail-closed ast translator (reqpipe) + model-vs-implementation correspondence (6 protocols x validators incl. WSGI twins, leaf readers) + mutation-campaign oracle over 8 protocols',
+ },
+ 'C12': {
+  'text': "Invariant proofs over an interleaving transition system (any number of threads, every schedule, one step = one access "
+          "to a shared variable) of WsgiApplication.handle_wsdl_request/Wsdl11 (double-checked lock), get_cls_attrs, sort_fields, "
+          "memoize.__call__ and XmlDocument.__validate_lxml: the WSDL is built at most once and every requester gets the "
+          "sequential document; the caches only ever hold and return the sequential value; a validation fault carries its own "
+          "error text, also when validate() raises; the locks exclude, never dead-lock, every request finishes within a bounded "
+          "number of its own steps, and every caller receives exactly the response of its request processed alone. The access "
+          "skeletons of the eight shared-state functions are regenerated from the source on every run and proved to be the text "
+          "the model mirrors, path by path; a deterministic baton scheduler ties the model to real threads on one "
+          "WsgiApplication (~3800 interleavings per quick run) and a byte-for-byte oracle compares status, headers and body with "
+          "the alone-response.",
+  'design_ref': 'DESIGN.md section 6 (C12)',
+  'note': TB + "Proved for the model's lock protocol and cache transparency; that no other per-request datum is parked on shared "
+          "objects is monitored (attribute writes to application/interface/protocol/transport/builder instances, response "
+          "comparison), not proved. Modelled, not verified: CPython switching as interleaving of whole shared accesses, lxml "
+          "validate()/error_log, dict and WeakKeyDictionary operations as atomic; cdict fills, memoize variants and a failing "
+          "WSDL build are covered by the oracle only; interleavings inside C calls are out of the scheduler's reach. The "
+          "snapshot's three races are kept as _refuted theorems and were repaired in /repo.",
+  'technique': 'Coq invariant proofs over an interleaving model + source-generated access skeletons (conctext translator) + deterministic-scheduler correspondence (sys.settrace / access hooks) + end-to-end differential oracle',
  },
 }
 NOT_APPLICABLE = {}
